@@ -224,7 +224,31 @@ class Freshness:
         cfg = flow.cfg
         copies = False
         identity_unguarded = False
+        def _leaves(v, facts):
+            if isinstance(v, ast.IfExp):
+                return _leaves(v.body, facts + [(v.test, True)]) + _leaves(v.orelse, facts + [(v.test, False)])
+            return [(v, facts)]
+
         for n in cfg.stmt_nodes():
+            if n.kind == "stmt" and isinstance(n.stmt, ast.Return) and isinstance(n.stmt.value, ast.IfExp):
+                # conditional-expression spelling: `return p.copy() if isinstance(p, ndarray) else p`
+                for (v, facts) in _leaves(n.stmt.value, []):
+                    if isinstance(v, ast.Call) and isinstance(v.func, ast.Attribute) and v.func.attr == "copy" and isinstance(v.func.value, ast.Name) and v.func.value.id == p:
+                        copies = True
+                    elif isinstance(v, ast.Call) and self.ctx.res.external_name(fi, v) in ("numpy.array", "numpy.copy", "copy.deepcopy") and v.args and isinstance(v.args[0], ast.Name) and v.args[0].id == p:
+                        copies = True
+                    elif isinstance(v, ast.Constant):
+                        pass
+                    elif isinstance(v, ast.Name) and v.id == p:
+                        from .util import conds_holding_at, split_cond
+
+                        allf = [(a, q) for (t, pol) in list(conds_holding_at(cfg, n)) + facts for (a, q) in split_cond(t, pol)]
+                        if not any(isinstance(a, ast.Call) and dotted(a.func) == "isinstance" and len(a.args) == 2 and isinstance(a.args[0], ast.Name) and a.args[0].id == p
+                                   and "ndarray" in ast.unparse(a.args[1]) and not q for (a, q) in allf):
+                            identity_unguarded = True
+                    else:
+                        identity_unguarded = True
+                continue
             if n.kind == "stmt" and isinstance(n.stmt, ast.Return) and n.stmt.value is not None:
                 v = n.stmt.value
                 if isinstance(v, ast.Call) and isinstance(v.func, ast.Attribute) and v.func.attr == "copy" and isinstance(v.func.value, ast.Name) and v.func.value.id == p:
@@ -307,6 +331,17 @@ class Freshness:
             if not ds:
                 return SCALAR if e.id in ("None", "True", "False") else AV("unknown", why=f"global {e.id}")
             vals = []
+            # statement form of the documented copy=False contract: `if copy: v = <copy of v>` followed by the store.
+            # The parameter's own definition reaches the use only along the false edge of the test on `copy`.
+            if len(ds) > 1 and any(d.kind == "param" for d in ds) and at is not None and "copy" in fi.params:
+                cfg = flow.cfg
+                others = [d.node.id for d in ds if d.kind != "param" and d.node is not None]
+                tests = [t for t in cfg.stmt_nodes() if t.kind == "test" and isinstance(t.ast, ast.Name) and t.ast.id == "copy"]
+                if tests and others:
+                    def _false_edge(a, b, lab, tests=tests):
+                        return any(a == t.id for t in tests) and bool(lab) and lab[0] == "cond" and lab[2] is False
+                    if not cfg.reaches(cfg.entry.id, at.id, blocked=others, blocked_edges=_false_edge):
+                        ds = [d for d in ds if d.kind != "param"]
             for d in ds:
                 if d.kind == "param":
                     ann = fi.param_annotation(d.name)
@@ -638,9 +673,17 @@ class Freshness:
         rets = [r for r in ast.walk(t.node) if isinstance(r, ast.Return)]
         if not rets:
             return False
+        def _leaf_ok(v) -> bool:
+            if isinstance(v, ast.IfExp):
+                return _leaf_ok(v.body) and _leaf_ok(v.orelse)
+            return v is None or (isinstance(v, ast.Constant) and v.value is None) or (isinstance(v, ast.Name) and v.id == p) or \
+                (isinstance(v, ast.Call) and any(isinstance(a, ast.Name) and a.id == p for a in ast.walk(v)))
+
         for r in rets:
             v = r.value
             if v is None or (isinstance(v, ast.Constant) and v.value is None):
+                continue
+            if isinstance(v, ast.IfExp) and _leaf_ok(v):
                 continue
             if isinstance(v, ast.Name) and v.id == p:
                 continue
